@@ -621,6 +621,18 @@ func build15[S, D any](c CaseC15, order []int, srcVal S) *wf15 {
 			sort.Strings(keys)
 			var chunks []S
 			for _, k := range keys {
+				if nm, ok := mv[k].(map[string]any); ok && k == "nest" && len(nm) > 1 {
+					// the nested map is spread over chunks too: a chunk carries the path prefix but not every nested key
+					nks := make([]string, 0, len(nm))
+					for nk := range nm {
+						nks = append(nks, nk)
+					}
+					sort.Strings(nks)
+					for _, nk := range nks {
+						chunks = append(chunks, any(map[string]any{k: map[string]any{nk: nm[nk]}}).(S))
+					}
+					continue
+				}
 				chunks = append(chunks, any(map[string]any{k: mv[k]}).(S))
 			}
 			sr, err = r.Transform(ctx, schema.StreamReaderFromArray(chunks))
